@@ -35,7 +35,7 @@ def conditions(tier, seed):
     q = tier == 'quick'
     for sh in range(2):
         out.append(Cond('synth_core_s%d' % sh, 'c05_gen.py', dict(family='core', shard=sh, nshards=2), func='check', timeout=t,
-                        bound='35 statement skeletons as the body of a function of a synthesised BridgePoint model (shard %d/2)' % sh,
+                        bound='36 statement skeletons as the body of a function of a synthesised BridgePoint model (shard %d/2)' % sh,
                         case_split=['program'], realised=['program text'], twin=(sh == 0)))
     nsh = 2 if q else 16
     for sh in range(nsh):
